@@ -80,20 +80,26 @@ def signature_of(tv, trace_path):
 
 def run(ctx):
     th = ctx.thorough
-    # 1. model checking of the design
-    mc = ctx.tlc("FsBinlogMC", "FsBinlog_mc_big.cfg" if th else "FsBinlog_mc.cfg", timeout=3000 if th else 600,
-                 coverage=th, name="reader/damage model",
-                 constants={"CrcEvery": 64, "Chunks": [100, 170, 1000000], "Lens": [12, 21, 50],
-                            "MaxOps": 7 if th else 6})
+    # 1. model checking of the design, 2. write histories for the driver (real writeCrcEveryBytes);
+    #    the three TLC runs and the build of the driver are independent and run side by side
+    with concurrent.futures.ThreadPoolExecutor(max_workers=4) as ex:
+        f_mc = ex.submit(ctx.tlc, "FsBinlogMC", "FsBinlog_mc_big.cfg" if th else "FsBinlog_mc.cfg",
+                         timeout=3000 if th else 900, coverage=th, name="reader/damage model", workers=max(2, NCPU // 2),
+                         constants={"CrcEvery": 64, "Chunks": [100, 170, 1000000], "Lens": [12, 21, 50],
+                                    "MaxOps": 6 if th else 5})
+        f_fine = ex.submit(ctx.tlc, "FsBinlogMC", "FsBinlog_fine_big.cfg" if th else "FsBinlog_fine.cfg",
+                           timeout=3000 if th else 900, coverage=th, name="writer loop at system call granularity",
+                           workers=max(2, NCPU // 4),
+                           constants={"CrcEvery": 64, "Chunks": [100, 1000000], "Lens": [12, 50], "MaxOps": 6 if th else 4})
+        f_beh = ex.submit(ctx.tlc, "FsBinlogMC", "FsBinlog_beh_big.cfg" if th else "FsBinlog_beh.cfg", timeout=900,
+                          name="behaviour export", workers=max(2, NCPU // 4))
+        f_bin = ex.submit(ctx.go_build_test, "internal/vkgo/binlog/fsbinlog")
+        mc, fine, beh = f_mc.result(), f_fine.result(), f_beh.result()
+        f_bin.result()
     ctx.require_model_ok(mc, "FsBinlog reader/damage invariants")
-    fine = ctx.tlc("FsBinlogMC", "FsBinlog_fine_big.cfg" if th else "FsBinlog_fine.cfg", timeout=3000 if th else 600,
-                   coverage=th, name="writer loop at system call granularity",
-                   constants={"CrcEvery": 64, "Chunks": [100, 1000000], "Lens": [12, 50], "MaxOps": 6 if th else 4})
     ctx.require_model_ok(fine, "FsBinlog writer-loop invariants")
-    ctx.ev.set("exhaustive", True)
-    # 2. write histories for the driver (real writeCrcEveryBytes)
-    beh = ctx.tlc("FsBinlogMC", "FsBinlog_beh_big.cfg" if th else "FsBinlog_beh.cfg", timeout=900, name="behaviour export")
     ctx.require_model_ok(beh, "behaviour export")
+    ctx.ev.set("exhaustive", True)
     bs = beh.behaviours
     maxlen = max(len(b) for b in bs)
     full = [b for b in bs if len(b) == maxlen or b[-1].get("a") == "Stop"]
@@ -106,11 +112,11 @@ def run(ctx):
         if any(x.get("a") == "Restart" for x in b): s += 1
         return -s
     full.sort(key=score)
-    ntake = 600 if th else 90
+    ntake = 400 if th else 90
     take = full[: ntake // 2] + rnd.sample(full[ntake // 2:], min(len(full) - ntake // 2, ntake - ntake // 2)) if len(full) > ntake else full
-    env = {"VERIF_NRANDOM": 250 if th else 30,
+    env = {"VERIF_NRANDOM": 180 if th else 30,
            "VERIF_C18_TRUNC": 40 if th else 16, "VERIF_C18_FLIP": 70 if th else 30, "VERIF_C18_READ": 12 if th else 6,
-           "VERIF_C18_ALLBELOW": 420 if th else 0, "VERIF_C18_ALLWORLDS": 40, "VERIF_C18_OSEVERY": 10}
+           "VERIF_C18_ALLBELOW": 420 if th else 0, "VERIF_C18_ALLWORLDS": 30, "VERIF_C18_OSEVERY": 10}
     res, out, rc = ctx.go_test("internal/vkgo/binlog/fsbinlog", "TestVerifC18", inp=take, env=env, timeout=2400)
     res = ctx.need_result(res, out, rc, "TestVerifC18")
     if rc != 0:
@@ -120,7 +126,7 @@ def run(ctx):
     if consts.get("writeCrcEveryBytes") != 65536 or consts.get("levCrcSize") != 20 or consts.get("levRotateSize") != 36:
         raise Infra("code constants changed (%s): specs/FsBinlog*.cfg must be re-instantiated" % consts)
     trace = res["files"][0]
-    parts = split_trace(ctx, trace, 6 if th else 3)
+    parts = split_trace(ctx, trace, 8 if th else 3)
     ntr = res["replayed"]
     cnt = res.get("counters", {})
     cadence = 0
